@@ -145,13 +145,59 @@ def crcProposalWithdraw (pv : Nat) : Ty :=
   .struct ([hash256, .varBytes negativeBigLength] ++ (if pv = 1 then [hash168, u64] else [])
     ++ [.varBytes maxSignatureScript])
 
+def dposProposalFields : Ty :=
+  .struct [.varBytes negativeBigLength, hash256, u32, .varBytes signatureLength]
+def dposProposalVoteFields : Ty :=
+  .struct [hash256, .varBytes negativeBigLength, .bool1, .varBytes signatureLength]
+
+/-! round 2: CR registration, evidence, side-chain and NFT payloads -/
+
+/-- `CRInfo` (RegisterCR, UpdateCR): code and signature absent from the Schnorr (2) and multi-sign (3)
+    versions, DID present from version 1 -/
+def crInfo (pv : Nat) : Ty :=
+  .struct ((if pv ≠ 2 ∧ pv ≠ 3 then [.varBytes maxMultiSignCode] else []) ++ [hash168]
+    ++ (if 1 ≤ pv then [hash168] else []) ++ [varString, varString, u64]
+    ++ (if pv ≠ 2 ∧ pv ≠ 3 then [.varBytes maxSignatureScript] else []))
+/-- `UnregisterCR`: signature absent from versions 1 and 2 -/
+def unregisterCR (pv : Nat) : Ty :=
+  .struct ([hash168] ++ (if pv ≠ 1 ∧ pv ≠ 2 then [.varBytes maxSignatureScript] else []))
+/-- `RegisterAsset`: asset (name, description, precision, type, record type), amount, controller -/
+def registerAsset : Ty := .struct [varString, varString, u8, u8, u8, u64, hash168]
+/-- `WithdrawFromSideChain`: v0 height/address/hashes, v1 nothing, v2 signer indexes, others nothing -/
+def withdrawFromSideChain (pv : Nat) : Ty :=
+  if pv = 0 then .struct [u32, varString, lst 128 hash256]
+  else if pv = 2 then .struct [lst 16 u8] else .struct []
+/-- `TransferCrossChainAsset`: only version 0 has content -/
+def transferCrossChainAsset (pv : Nat) : Ty :=
+  if 1 ≤ pv then .struct [] else .struct [lst 128 (.struct [varString, .varUint, u64])]
+def proposalEvidence : Ty := .struct [dposProposalFields, .varBytes maxBlockContext, u32]
+def dposIllegalProposals : Ty := .struct [proposalEvidence, proposalEvidence]
+def voteEvidence : Ty := .struct [dposProposalVoteFields, proposalEvidence]
+def dposIllegalVotes : Ty := .struct [voteEvidence, voteEvidence]
+def sidechainIllegalData : Ty :=
+  .struct [u8, u32, .varBytes negativeBigLength, hash256, hash256, varString, lst 128 (.varBytes signatureLength)]
+/-- `CRCProposalTracking`: message data (≤ 800 KiB) and secretary opinion data (≤ 200 KiB) from version 1 -/
+def crcProposalTracking (pv : Nat) : Ty :=
+  .struct ([hash256, hash256] ++ (if 1 ≤ pv then [.varBytes 819200] else [])
+    ++ [u8, .varBytes 35, .varBytes 35, .varBytes signatureLength, .varBytes signatureLength, u8, hash256]
+    ++ (if 1 ≤ pv then [.varBytes 204800] else []) ++ [.varBytes signatureLength])
+def returnSideChainDepositCoin (pv : Nat) : Ty := if pv = 1 then .struct [lst 16 u8] else .struct []
+def votesRealWithdraw : Ty := lst 128 (.struct [hash256, hash168, u64])
+def createNFT (pv : Nat) : Ty :=
+  .struct ([hash256, varString, hash256]
+    ++ (if 1 ≤ pv then [u32, u32, u64, u64, .varBytes maxMultiSignCode] else []))
+/-- `RecordProposalResult`: (proposal hash, 16-bit proposal type, result flag) list; the `bool` makes the
+    reader non-canonical, so the type stays outside the transaction table (stand-alone ops only) -/
+def recordProposalResult : Ty := lst 128 (.struct [hash256, u16, .bool])
+def nftDestroyFromSideChain : Ty := .struct [lst 128 hash256, lst 128 hash168, hash256]
+
 /-! DPoS confirm (core/types/payload/confirm.go, dposproposal.go, dposproposalvote.go) -/
 
 def dposProposal : Ty := .struct [.varBytes negativeBigLength, hash256, u32, .varBytes signatureLength]
 def dposProposalVote : Ty :=
   .struct [hash256, .varBytes negativeBigLength, .bool1, .varBytes signatureLength]
 /-- `Confirm`: proposal, `uint64` vote count, votes (after the `fix:` read element by element) -/
-def confirm : Ty := .struct [dposProposal, .list 8 none 0 256 dposProposalVote]
+def confirm : Ty := .struct [dposProposal, .list 8 none 0 448 dposProposalVote]
 
 /-! p2p messages whose readers pre-size a slice from the wire count *after* checking it against a
     protocol maximum (p2p/msg/inv.go, getblocks.go, addr.go) -/
@@ -218,10 +264,23 @@ def payloadOf : Nat → Cover
   | 0x62 => .covered fun _ => emptyPayload
   | 0x64 => .covered returnVotes
   | 0x66 => .covered fun _ => recordSponsor
+  | 0x01 => .covered fun _ => registerAsset
+  | 0x07 => .covered withdrawFromSideChain
+  | 0x08 => .covered transferCrossChainAsset
+  | 0x0e => .covered fun _ => dposIllegalProposals
+  | 0x11 => .covered fun _ => sidechainIllegalData
+  | 0x21 => .covered crInfo
+  | 0x22 => .covered unregisterCR
+  | 0x23 => .covered crInfo
+  | 0x27 => .covered crcProposalTracking
+  | 0x51 => .covered returnSideChainDepositCoin
+  | 0x65 => .covered fun _ => votesRealWithdraw
+  | 0x71 => .covered createNFT
+  | 0x72 => .covered fun _ => nftDestroyFromSideChain
   -- the other types `GetTransaction` knows
-  | 0x01 | 0x07 | 0x08 | 0x0e | 0x0f | 0x11 | 0x15
-  | 0x21 | 0x22 | 0x23 | 0x25 | 0x27
-  | 0x51 | 0x65 | 0x71 | 0x72 => .uncovered
+  -- IllegalVoteEvidence (the accept byte of a vote is read non-canonically), ProposalResult (a `bool`
+  -- field) and CRCProposal are covered by the writer/reader mirror lemma only
+  | 0x0f | 0x15 | 0x25 => .uncovered
   | _ => .invalid
 
 /-- the fields of a transaction after the type byte, without the programs:
